@@ -781,6 +781,8 @@ def run(ctx):
     ctx.attempt(C03.check_writers, ctx, db, only={'gdstk::RobustPath::to_gds'})
     from . import C02   # a simple robust path saved as an OASIS PATH: the extension scheme announces exactly the extensions that follow
     ctx.attempt(C02.check_path_extensions, ctx, db)
+    from . import C10  # the outline sits on the side offset_scale says: scaling keeps its sign, a reflection flips it, width_scale stays positive
+    ctx.attempt(C10.check_signs, ctx, db)
 
 
 MANIFEST = dict(
